@@ -360,6 +360,12 @@ class Oracle:
             bad("no answer (the implementation crashed or hung before this line)")
             return
         o = out.split()
+        # a value written through a cursor whose position the oracle did not know is attributed by the cget that follows at
+        # once; if anything else comes first, which record changed stays unknown: the database is re-learnt from the next dump
+        for c_, cs_ in self.cur.items():
+            if "unknown_set" in cs_ and not (op == "cget" and len(f) > 1 and f[1] == str(c_)):
+                cs_.pop("unknown_set")
+                self.uncertain.add(cs_["db"])
         if self.rdonly and op in ("del", "cset", "cdel", "setmeta", "dbdestroy"):
             if o[0] != "READONLY" and not (op in ("cset", "cdel") and o[0] in ("NOTFOUND", "INVALID_ARGS")):
                 bad("mutating call on a read-only store must report READONLY")
